@@ -140,6 +140,16 @@ Loopback(a, b, k, isk) ==
   /\ net' = [net EXCEPT !.loops = @ \cup {[outof |-> b, into |-> a, iterations |-> k, inskips |-> isk]}]
   /\ UNCHANGED <<phase, cfgv>>
 
+\* A loop whose first layer is also the target of a skip connection (source s < a): the input skips of the loop then add
+\* the input layer a PROCESSED, i.e. the accumulated one.
+LoopWithSkip(a, b, k, s) ==
+  /\ Mode = "loop" /\ phase = "build" /\ hist = <<>> /\ MaxConnects >= 2
+  /\ s < a /\ a <= b /\ net.layers[a].in = net.layers[b].out /\ InCount(net, s) = InCount(net, a)
+  /\ hist' = <<[op |-> "connect", from |-> s, to |-> a, outcome |-> "ok"],
+               [op |-> "loopback", outof |-> b, into |-> a, iterations |-> k, inskips |-> TRUE, outcome |-> "ok"]>>
+  /\ net' = [net EXCEPT !.connect = {<<a, s>>}, !.loops = {[outof |-> b, into |-> a, iterations |-> k, inskips |-> TRUE]}]
+  /\ UNCHANGED <<phase, cfgv>>
+
 Finish ==
   /\ phase = "build"
   /\ Mode = "loop" => hist # <<>>
@@ -149,6 +159,7 @@ Finish ==
 Next ==
   \/ \E a \in 1..Len(net.layers), b \in 1..Len(net.layers) : Connect(a, b)
   \/ \E a \in 1..Len(net.layers), b \in 1..Len(net.layers), k \in 1..MaxIter, isk \in BOOLEAN : Loopback(a, b, k, isk)
+  \/ \E a \in 1..Len(net.layers), b \in 1..Len(net.layers), k \in 1..MaxIter, s \in 1..Len(net.layers) : LoopWithSkip(a, b, k, s)
   \/ Finish
 Spec == Init /\ [][Next]_vars
 
